@@ -1,6 +1,7 @@
 package gofakes3
 
 import (
+	"bytes"
 	"io"
 	"io/ioutil"
 	"strconv"
@@ -35,18 +36,28 @@ func parseClampedInt(in string, defaultValue, min, max int64) (int64, error) {
 // It also reports S3-specific errors in certain conditions, like
 // ErrIncompleteBody.
 func ReadAll(r io.Reader, size int64) (b []byte, err error) {
-	var n int
-	b = make([]byte, size)
-	n, err = io.ReadFull(r, b)
-	if err == io.ErrUnexpectedEOF {
+	if size < 0 {
+		return nil, ErrIncompleteBody
+	}
+
+	// The declared size comes from the client: grow the buffer as the body
+	// arrives instead of allocating what a Content-Length header claims
+	// (make([]byte, size) panics or exhausts memory for absurd values).
+	var buf bytes.Buffer
+	if size <= 64<<20 {
+		buf.Grow(int(size)) // preallocate plausible sizes, as before
+	}
+	n, err := io.CopyN(&buf, r, size)
+	if err == io.EOF || err == io.ErrUnexpectedEOF {
 		return nil, ErrIncompleteBody
 	} else if err != nil {
 		return nil, err
 	}
 
-	if n != int(size) {
+	if n != size {
 		return nil, ErrIncompleteBody
 	}
+	b = buf.Bytes()
 
 	if extra, err := ioutil.ReadAll(r); err != nil {
 		return nil, err
